@@ -452,7 +452,7 @@ package smtp
 //@   requires @C15 command-is-one-line: noCRLF(fmtline(format, args))
 //@   modifies c.text.cmds, c.text.Reader.resps
 //@   ensures @C15 one-line-written: c.text.cmds == old(c.text.cmds) + 1
-//@   ensures c.text.Reader.resps <= old(c.text.Reader.resps) + 1 && c.text.Reader.resps >= old(c.text.Reader.resps)
+//@   ensures @C09,C16 reply-read-for-every-line-written: c.text.Reader.resps == old(c.text.Reader.resps) + 1 || (err != nil && c.text.Reader.resps == old(c.text.Reader.resps))
 
 //@ contract (*Client).greet(c) (err)
 //@   prop C15
@@ -584,9 +584,112 @@ package smtp
 //@   requires clientWF(c)
 //@   modifies c.text.cmds, c.text.Reader.resps
 //@   ensures @C15 one-line: c.text.cmds == old(c.text.cmds) + 1
+//@   ensures err == nil ==> w != nil && istype(w, "*dataCloser") && !wasalloc(w)
 
 //@ contract (*Client).LMTPData(c, statusCb) (w, err)
 //@   prop C15 C18
 //@   requires clientWF(c)
 //@   modifies c.text.cmds, c.text.Reader.resps
 //@   ensures @C15 at-most-one-line: c.text.cmds <= old(c.text.cmds) + 1
+//@   ensures err == nil ==> w != nil && istype(w, "*dataCloser") && !wasalloc(w)
+
+// ---------------------------------------------------------------------------------------
+// Client: end of data (C16, C18), SendMail, AUTH (C09), STARTTLS (C10)
+// ---------------------------------------------------------------------------------------
+
+//@ contract (*dataCloser).Close(d) (err)
+//@   prop C16 C18
+//@   requires d != nil && d.c != nil && d.c.conn != nil && d.c.text != nil && d.WriteCloser != nil
+//@   modifies d.closed, d.c.rcpts, d.c.text.Reader.resps, d.WriteCloser.closes
+//@   before funcfield:dataCloser.statusCb: @C18 callback-names-the-recipient-whose-reply-was-just-read: $0 == d.c.rcpts[d.c.text.Reader.resps - old(d.c.text.Reader.resps) - 1]
+//@   ensures @C16 closing-again-is-an-error-not-a-second-exchange: old(d.closed) ==> err != nil && d.c.text.Reader.resps == old(d.c.text.Reader.resps) && d.WriteCloser.closes == old(d.WriteCloser.closes)
+//@   ensures @C16 always-closed-afterwards: d.closed
+//@   ensures @C16 one-terminator: !old(d.closed) ==> d.WriteCloser.closes == old(d.WriteCloser.closes) + 1
+//@   ensures @C16 one-verdict-read: !old(d.closed) && !d.c.lmtp ==> d.c.text.Reader.resps <= old(d.c.text.Reader.resps) + 1
+//@   ensures @C16 success-means-the-verdict-was-read: !old(d.closed) && !d.c.lmtp && err == nil ==> d.c.text.Reader.resps == old(d.c.text.Reader.resps) + 1
+//@   ensures @C18 exactly-one-reply-per-accepted-recipient: !old(d.closed) && d.c.lmtp && err == nil ==> d.c.text.Reader.resps == old(d.c.text.Reader.resps) + len(old(d.c.rcpts))
+//@   ensures @C18 never-more-replies-than-recipients: d.c.lmtp ==> d.c.text.Reader.resps <= old(d.c.text.Reader.resps) + len(old(d.c.rcpts))
+//@   ensures @C18 recipients-forgotten-when-the-transaction-ends: err == nil ==> len(d.c.rcpts) == 0
+//@   loop 1:
+//@     invariant 0 <= expectedResponses && expectedResponses <= len(d.c.rcpts) && d.c.rcpts == old(d.c.rcpts) && d.c.lmtp && d.closed && !old(d.closed)
+//@     invariant @C18 replies-so-far: d.c.text.Reader.resps == old(d.c.text.Reader.resps) + len(d.c.rcpts) - expectedResponses
+//@     invariant d.WriteCloser.closes == old(d.WriteCloser.closes) + 1
+//@     backedge @C18 refusal-remembered-when-there-is-no-callback: d.statusCb == nil && istype(resultof("(*Client).readResponse", 2, 3), "*SMTPError") ==> refused != nil
+
+//@ contract (*Client).SendMail(c, from, to, r) (err)
+//@   prop C16
+//@   requires clientWF(c) && !istype(r, "*dataReader") && !istype(r, "*io.LimitedReader")
+//@   before (*Client).Rcpt: @C16 recipients-in-the-order-given: $1 == to[rangeindex + 1]
+//@   before (*Client).Mail: @C16 sender-as-given: $1 == from
+//@   modifies c.didGreet, c.greetError, c.didHello, c.helloError, c.ext, c.rcpts, c.rcpts[**], c.text.cmds, c.text.Reader.resps, *.dataCloser.closed, *.io.WriteCloser.closes, *elems string
+//@   loop 1:
+//@     invariant clientWF(c) && rangeindex < len(to)
+
+//@ contract (*Client).Auth(c, a) (err)
+//@   prop C09 C15
+//@   requires clientWF(c) && a != nil
+//@   modifies c.didGreet, c.greetError, c.didHello, c.helloError, c.ext, c.text.cmds, c.text.Reader.resps
+//@   loop 1:
+//@     invariant clientWF(c) && c.text == old(c.text)
+//@     backedge @C09 in-step-with-the-server: err == nil ==> c.text.cmds - c.text.Reader.resps == head(c.text.cmds - c.text.Reader.resps)
+//@     backedge @C09 one-line-per-step: c.text.cmds == head(c.text.cmds) + 1
+
+//@ contract (*Client).setConn(c, conn)
+//@   prop C10
+//@   requires c != nil
+//@   modifies c.conn, c.text
+//@   ensures @C10 new-transport-new-buffers: c.conn == conn && c.text != nil && !wasalloc(c.text) && c.text.R != nil && !wasalloc(c.text.R) && c.text.R.pos == 0 && c.text.cmds == 0
+
+//@ contract (*Client).startTLS(c, config) (err)
+//@   prop C10 C15
+//@   requires clientWF(c)
+//@   modifies c.didGreet, c.greetError, c.didHello, c.helloError, c.ext, c.conn, c.text, c.text.cmds, c.text.Reader.resps
+//@   ensures @C10 upgrade-switches-transport-and-forgets-hello: err == nil ==> istype(c.conn, "*tls.Conn") && c.conn != old(c.conn) && !c.didHello && c.text != old(c.text) && !wasalloc(c.text)
+//@   ensures @C10 failure-keeps-the-transport: err != nil ==> c.conn == old(c.conn) && c.text == old(c.text)
+//@   ensures clientWF(c)
+//@   ensures @C15 greeting-plus-one: c.text == old(c.text) ==> c.text.cmds <= old(c.text.cmds) + 3 && (old(c.didHello) ==> c.text.cmds <= old(c.text.cmds) + 1)
+
+//@ contract initStartTLS(c, tlsConfig) (err)
+//@   prop C10
+//@   requires clientWF(c)
+//@   modifies c.didGreet, c.greetError, c.didHello, c.helloError, c.ext, c.conn, c.text, c.text.cmds, c.text.Reader.resps
+//@   before (*Client).startTLS: @C10 starttls-only-if-offered: has(c.ext, "STARTTLS")
+//@   ensures @C10 success-means-tls: err == nil ==> istype(c.conn, "*tls.Conn")
+//@   ensures clientWF(c)
+//@   ensures @C10 nothing-further-written-without-starttls: c.conn == old(c.conn) ==> err != nil && c.text.cmds <= old(c.text.cmds) + 3
+
+//@ contract NewClient(conn) (c)
+//@   prop C10
+//@   requires conn != nil
+//@   fresh c
+//@   ensures c != nil && c.conn == conn && c.text != nil && clientWF(c) && !c.didHello && c.text.cmds == 0
+
+//@ contract NewClientStartTLS(conn, tlsConfig) (c, err)
+//@   prop C10
+//@   requires conn != nil
+//@   modifies *.textproto.Conn.cmds, *.textproto.Reader.resps
+//@   ensures @C10 no-client-without-tls: err != nil ==> c == nil
+//@   ensures @C10 client-is-on-tls: err == nil ==> c != nil && istype(c.conn, "*tls.Conn")
+
+//@ contract Dial(addr) (c, err)
+//@   prop C10
+//@   ensures err == nil ==> c != nil && clientWF(c) && !wasalloc(c) && !c.didHello
+//@   ensures err != nil ==> c == nil
+
+//@ contract DialTLS(addr, tlsConfig) (c, err)
+//@   prop C10
+//@   ensures @C10 client-is-on-tls: err == nil ==> c != nil && clientWF(c) && istype(c.conn, "*tls.Conn")
+//@   ensures err != nil ==> c == nil
+
+//@ contract DialStartTLS(addr, tlsConfig) (c, err)
+//@   prop C10
+//@   modifies *.textproto.Conn.cmds, *.textproto.Reader.resps
+//@   ensures @C10 no-client-without-tls: err != nil ==> c == nil
+//@   ensures @C10 client-is-on-tls: err == nil ==> c != nil && clientWF(c) && istype(c.conn, "*tls.Conn")
+
+//@ contract sendMail(addr, implicitTLS, a, from, to, r) (err)
+//@   prop C10 C15
+//@   requires !istype(r, "*dataReader") && !istype(r, "*io.LimitedReader")
+//@   before (*Client).Auth: @C10 credentials-only-over-tls: istype(c.conn, "*tls.Conn")
+//@   before (*Client).SendMail: @C10 envelope-and-content-only-over-tls: istype(c.conn, "*tls.Conn") && noCRLF(from)
+//@   modifies *.Client.didGreet, *.Client.greetError, *.Client.didHello, *.Client.helloError, *.Client.ext, *.Client.rcpts, *.Client.conn, *.Client.text, *.textproto.Conn.cmds, *.textproto.Reader.resps, *.dataCloser.closed, *.io.WriteCloser.closes, *elems string
